@@ -299,13 +299,14 @@ def run_grad(case):
             return np.array(g), np.array(e)
 
         def raise_sig(site, exc):
-            if cls == "Gamma" and q == 1 and site in ("sensitivity", "gradient", "sensitivityIV"):
-                return "GammaLoss:single-state-raises"
-            if site == "sensitivityIV" and ts is not None and type(exc).__name__ == "TypeError":
+            en = type(exc).__name__
+            if site == "sensitivityIV" and ts is not None and en == "TypeError":
                 return "sensitivityIV:target_state-raises"
-            if q == 1 and weights[0] == "per-obs" and type(exc).__name__ == "ValueError":
+            if q == 1 and weights[0] == "per-obs" and en == "ValueError" and "broadcast" in str(exc):
                 return "weights:per-obs-vector:single-state-raises"
-            return "%s:%sLoss:raises:%s" % (site, cls, type(exc).__name__)
+            if cls == "Gamma" and q == 1 and en == "ValueError" and "aligned" in str(exc):
+                return "GammaLoss:single-state-raises"
+            return "%s:%sLoss:raises:%s" % (site, cls, en)
 
         try:
             LC.set_params(model, params, th_base)
